@@ -1012,8 +1012,11 @@ def mon_namespace(ops, lines):
                 topics[ot[1]] = n[0]
             elif code == "6" and ot[1] not in topics:
                 return "C10-phantom: CreateTopic %r answered ALREADY_EXISTS at op %d but no such topic exists" % (unhx(ot[1]), i)
-        elif k in ("GT", "DT", "PUB", "PUBN") or (k == "LTS" and code in ("0", "5")):
+        elif k in ("GT", "DT", "PUB", "PUBN", "LTS"):
             present = ot[1] in topics
+            if code not in ("0", "5"):
+                return ("C10-wrong-status: %s of the %s topic %r answered status %s at op %d (a well-formed request on a "
+                        "name answers OK or NOT_FOUND)" % (k, "live" if present else "absent", unhx(ot[1]), code, i))
             if code == "0" and not present:
                 return "C10-absent-ok: %s of the absent topic %r answered OK at op %d" % (k, unhx(ot[1]), i)
             if code == "5" and present:
@@ -1042,6 +1045,9 @@ def mon_namespace(ops, lines):
                 return "C10-present-notfound: CreateSubscription on the live topic %r answered NOT_FOUND at op %d" % (unhx(ot[2]), i)
         elif k in ("GS", "DS", "PULL", "STATS"):
             present = ot[1] in subs
+            if code not in ("0", "5"):
+                return ("C10-wrong-status: %s of the %s subscription %r answered status %s at op %d (a well-formed request "
+                        "on a name answers OK or NOT_FOUND)" % (k, "live" if present else "absent", unhx(ot[1]), code, i))
             if code == "0" and not present:
                 return "C11-zombie: %s of %r answered OK at op %d although it was deleted (or never created)" % (k, unhx(ot[1]), i)
             if code == "5" and present:
